@@ -150,17 +150,69 @@ var knownIssueTags = []issueTag{
 	{"c02.restrict-image-load.const-type", func(i spv.Issue, c *Case, m *spv.Module) bool {
 		return i.Rule == "const.type" && c.Opts["imgload"] == "1" && strings.Contains(i.Msg, "has type i32, want u32") && instOp(m, i.Inst) == spv.OpConstantComposite
 	}},
+	// C02-5: the result of textureLoad on a texture_*<i32> is typed vec4<f32> by the lowerer: arithmetic on it is
+	// emitted with float opcodes / float result types on the vec4<i32> the OpImageFetch produces
+	{"c02.texture-i32.load-typed-f32", func(i spv.Issue, c *Case, m *spv.Module) bool {
+		if !strings.Contains(i.Msg, "f32") || i.Inst < 0 || i.Inst >= len(m.Insts) {
+			return false
+		}
+		// the offending instruction computes (within a few steps) on the result of an image instruction
+		// whose result type is a signed integer vector
+		var fromSintImage func(id uint32, depth int) bool
+		fromSintImage = func(id uint32, depth int) bool {
+			d := m.Def(id)
+			if d == nil || depth > 6 {
+				return false
+			}
+			if d.Op >= 87 && d.Op <= 98 { // OpImageSample* … OpImageRead
+				if t := m.Type(d.Type); t != nil {
+					if t.Kind == spv.TVector {
+						t = m.Type(t.Elem)
+					}
+					return t != nil && t.Kind == spv.TInt && t.Signed
+				}
+				return false
+			}
+			if d.Op == spv.OpLoad || d.Op == spv.OpVariable || d.Op == spv.OpFunctionParameter || d.Op == spv.OpFunctionCall {
+				return false
+			}
+			for _, a := range d.IDs() {
+				if a != d.Type && fromSintImage(a, depth+1) {
+					return true
+				}
+			}
+			return false
+		}
+		in := m.Insts[i.Inst]
+		for _, a := range in.IDs() {
+			if a != in.Type && fromSintImage(a, 0) {
+				return true
+			}
+		}
+		return false
+	}},
+	// C02-6: ir.ProcessOverrides leaves the gradient operands of textureSampleGrad pointing at the wrong expressions
+	{"c02.override.gradient-remap", func(i spv.Issue, c *Case, m *spv.Module) bool {
+		if c.Opts["overrides"] != "1" || instOp(m, i.Inst) != 88 /* OpImageSampleExplicitLod */ || m.Insts[i.Inst].Arg(2)&0x4 == 0 {
+			return false
+		}
+		switch i.Rule {
+		case "image.operands", "ssa.dominance", "id.forward", "id.undefined", "type.operand-value", "ssa.cross-function":
+			return true
+		}
+		return false
+	}},
 	// C02-3: ir.ProcessOverrides folds a comparison between an override and a constant to a literal of the
 	// operand type instead of bool
 	{"c02.override.compare-fold", func(i spv.Issue, c *Case, m *spv.Module) bool {
 		if c.Opts["overrides"] != "1" {
 			return false
 		}
+		// every symptom is a numeric constant where a bool (scalar or vector) is required
 		switch i.Rule {
-		case "branch.condition":
-			return strings.Contains(i.Msg, "is not bool")
-		case "type.select":
-			return strings.Contains(i.Msg, "condition type") && strings.Contains(i.Msg, "is not a bool")
+		case "branch.condition", "type.select", "composite.shape", "mem.store-type", "return.type", "type.operand-relation", "type.result",
+			"call.signature", "phi.type", "var.initializer", "const.type":
+			return strings.Contains(i.Msg, "bool")
 		}
 		return false
 	}},
